@@ -106,6 +106,10 @@ ElemTarget(S, e) ==
   ELSE IF "ty" \in DOMAIN e.it THEN TargetOf(S, FileNamed(S, e.f), e.it, e.it.ty)
   ELSE [k |-> "builtin", rust |-> "String"]
 
+\* the occurrence of a choice (written only when it differs from 1..1)
+PMin(p) == IF "min" \in DOMAIN p THEN p.min ELSE 1
+PMax(p) == IF "max" \in DOMAIN p THEN p.max ELSE "1"
+
 \* members declared by a content model, flattened, with the occurrence combined along the enclosing particles
 RECURSIVE Flat(_, _, _, _, _, _, _)
 Flat(S, f, it, ps, pmin, pmax, inch) ==
@@ -120,7 +124,7 @@ Flat(S, f, it, ps, pmin, pmax, inch) ==
                           ELSE << [xml |-> e.n, attr |-> FALSE, min |-> emin(p.min), max |-> MaxMul(p.max, pmax),
                                    target |-> ElemTarget(S, e), ns |-> e.ns, xsd |-> "-"] >>
         [] p.k = "seq" -> Flat(S, f, it, p.ps, emin(p.min), MaxMul(p.max, pmax), FALSE)
-        [] p.k = "choice" -> Flat(S, f, it, p.ps, pmin, pmax, TRUE)
+        [] p.k = "choice" -> Flat(S, f, it, p.ps, IF PMin(p) = 0 THEN 0 ELSE pmin, MaxMul(PMax(p), pmax), TRUE)
         [] OTHER -> <<>>)
      \o Flat(S, f, it, Tail(ps), pmin, pmax, inch)
 
